@@ -77,7 +77,7 @@ func init() {
 								if fn == nil || !internal[fn] {
 									continue
 								}
-								construct := ord.next("call " + fn.Name())
+								construct := ord.next("call " + shortName(fn))
 								if bu.Lit != nil {
 									construct = "literal: " + construct
 								}
@@ -123,7 +123,7 @@ func init() {
 				if ord[name] == nil {
 					ord[name] = &ordinal{}
 				}
-				construct := ord[name].next("call " + s.Callee.Name())
+				construct := ord[name].next("call " + shortName(s.Callee))
 				info := s.Unit.Pkg.TypesInfo
 				// returned directly?
 				parent := s.Stack[len(s.Stack)-2]
@@ -356,7 +356,7 @@ func init() {
 						if callee == nil || !reach[callee] {
 							continue
 						}
-						construct := ord.next("call " + callee.Name())
+						construct := ord.next("call " + shortName(callee))
 						if !fc.reachableAvoiding(b, notExceeded) {
 							obs = append(obs, mkOb(c, "HEIGHT.nesting-check", u, construct, ce, Proved, "reachable only through the not-exceeded edge of the nesting guard", true))
 						} else {
